@@ -357,6 +357,22 @@ func Transcript(path string) error {
 				return g.Point().Pick(alpha.Stream(fmt.Sprintf("c18-pick-family-%d", i))), true
 			})
 		}
+		if g.Pick {
+			// candidates at the top of the coordinate range: 0xff.. prefixes with one varying byte at either end
+			L := g.Group.PointLen()
+			if L > 64 {
+				L = 64
+			}
+			fam("Pick(0xff-prefix)", 512, func(i int) (kyber.Point, bool) {
+				pre := bytes.Repeat([]byte{0xff}, L)
+				if i < 256 {
+					pre[0] = byte(i)
+				} else {
+					pre[L-1] = byte(i - 256)
+				}
+				return g.Point().Pick(&alpha.PrefixStream{Prefix: pre, Next: alpha.Stream(fmt.Sprintf("c18-pick-ff-%d", i))}), true
+			})
+		}
 		if hp, ok := g.Point().(kyber.HashablePoint); ok {
 			_ = hp
 			fam("Hash", n, func(i int) (kyber.Point, bool) {
